@@ -241,3 +241,70 @@ theorem mcoreB_preserves {log : List Rec} {n : Nat} {out : List Rec} (h : MCoreB
       exact v1
 
 end XixiKV.ConcMergeBatch
+
+/-! ## the boundary lies before every open batch (any flag value) -/
+
+namespace XixiKV.ConcMergeBatch
+open XixiKV.Conc (Tid Key Val upd updK Res)
+open XixiKV.ConcBatch
+
+theorem step_bstart {sh : Shape} {g g' : G} (hs : Step sh g g') :
+    g'.bstart = g.bstart ∨ g'.bstart = none ∨ g'.bstart = some g.log.length := by
+  cases hs <;> first
+    | exact .inl rfl
+    | exact .inr (.inl rfl)
+    | exact .inr (.inr rfl)
+
+def boundaryOf : MSt → Option Nat
+  | .idle => none
+  | .scanning n _ _ => some n
+  | .done n _ => some n
+
+/-- `mstart` needs `db.mu` free and a batch holds `db.mu` from `NewBatch` to `Commit`: a batch that
+is open during or after a scan was opened after the boundary was fixed -/
+theorem boundary_le_bstart {sh : Shape} {b : Bool} {a : GM} (h : ReachableM sh b a) :
+    ∀ n, boundaryOf a.m = some n →
+      n ≤ a.g.log.length ∧ ∀ s, a.g.bstart = some s → n ≤ s := by
+  induction h with
+  | init => intro n hn; cases hn
+  | step hr hs ih =>
+    have hI := reachable_inv0 (reachableM_base hr)
+    cases hs with
+    | base g g' m hst =>
+      intro n hn
+      obtain ⟨h1, h2⟩ := ih n hn
+      obtain ⟨l, hl⟩ := step_log hst
+      refine ⟨by show n ≤ g'.log.length; rw [hl, List.length_append]; exact Nat.le_add_right_of_le h1,
+        fun s hs => ?_⟩
+      rcases step_bstart hst with e | e | e
+      · exact h2 s (by rw [← e]; exact hs)
+      · rw [e] at hs; cases hs
+      · rw [e] at hs; cases hs; exact h1
+    | mstart g m todo hc hw hp =>
+      intro n hn
+      cases hn
+      refine ⟨Nat.le_refl _, fun s hs => ?_⟩
+      have : g.bstart = none := bstart_none_of_free hI hw
+      rw [this] at hs; cases hs
+    | mvisit g n i todo out hw => exact ih
+    | mfinish g n out => exact ih
+    | mabort g n todo out => intro n hn; cases hn
+
+/-- while a batch is open the records a restart leaves parked (drops) are exactly the log from the
+batch's start on -/
+theorem open_batch_pend {g : G} (hI : Inv0 g) {s : Nat} (hs : g.bstart = some s) :
+    (replayAll g.log).pend = enumPos s (g.log.drop s) := by
+  obtain ⟨t, ht⟩ := hI.bstartF (by rw [hs]; simp)
+  have hh := hI.heldF t
+  have key : ∀ {ops b s' todo staged rest},
+      BatchFacts g.log g.idx g.bstart ops b s' todo staged rest →
+      (replayAll g.log).pend = enumPos s (g.log.drop s) := by
+    intro ops b s' todo staged rest bf
+    have : s' = s := by have := bf.bs; rw [hs] at this; exact (Option.some.inj this).symm
+    subst this
+    exact bf.pend
+  cases hc : g.pc t <;> rw [hc] at ht <;> simp only [isBat] at ht <;> try cases ht
+  · rw [hc] at hh; exact key hh.1
+  · rw [hc] at hh; exact key hh
+
+end XixiKV.ConcMergeBatch
